@@ -44,7 +44,17 @@ def get_chunk_dtype_transformer(input_dtype, output_dtype, warn=True):
         output_min = 0.0
         output_max = 1.0
 
-    work_dtype = np.promote_types(input_dtype, output_dtype)
+    clip_min, clip_max = output_min, output_max
+    if (np.issubdtype(input_dtype, np.integer)
+            and np.issubdtype(output_dtype, np.integer)):
+        # Integer to integer: clip within the input type. This avoids the
+        # float64 work type that NumPy promotes mixed 64-bit integers to,
+        # which cannot hold integers above 2**53 exactly.
+        work_dtype = input_dtype
+        clip_min = max(output_min, np.iinfo(input_dtype).min)
+        clip_max = min(output_max, np.iinfo(input_dtype).max)
+    else:
+        work_dtype = np.promote_types(input_dtype, output_dtype)
 
     round_to_nearest = (
         np.issubdtype(output_dtype, np.integer)
@@ -76,7 +86,7 @@ def get_chunk_dtype_transformer(input_dtype, output_dtype, warn=True):
             if round_to_nearest:
                 np.rint(chunk, out=chunk)
             if clip_values:
-                np.clip(chunk, output_min, output_max, out=chunk)
+                np.clip(chunk, clip_min, clip_max, out=chunk)
         return chunk.astype(output_dtype, casting="unsafe")
 
     return chunk_transformer
